@@ -388,6 +388,28 @@ func genPrefix(r *runner) {
 		both(in, p)
 		r.res.Hit("prefix:random:" + t)
 	}
+	// 6b. what is left of the key after the prefix, byte level: every string of length <= 2 over the boundary bytes of the
+	// UTF-8 tables (ASCII, continuation ranges, overlong / surrogate / out-of-range leads), random ones of length 3..5;
+	// ties the model's decoder ([]rune(str)) and encoder (string(vv)) to the runtime's
+	ub := []byte{0x41, 0x61, 0x7f, 0x80, 0x89, 0x8f, 0x90, 0x9f, 0xa0, 0xbf, 0xc0, 0xc1, 0xc2, 0xc9, 0xdf, 0xe0, 0xe1, 0xec, 0xed, 0xee, 0xef, 0xf0, 0xf1, 0xf3, 0xf4, 0xf5, 0xff}
+	tail := func(b []byte) {
+		t := []string{"ms", "m", "mi"}[len(b)%3]
+		both(mapVS(t, []string{"p" + string(b)}, strVal), "p")
+	}
+	for _, a := range ub {
+		tail([]byte{a})
+		for _, b := range ub {
+			tail([]byte{a, b})
+		}
+	}
+	for i := 0; i < r.n(3000); i++ {
+		b := make([]byte, 3+r.rnd.Intn(3))
+		for j := range b {
+			b[j] = ub[r.rnd.Intn(len(ub))]
+		}
+		tail(b)
+	}
+	r.res.Hit("prefix:utf8-boundary-tails")
 	// 7. metadata.Properties: the typed view of a metadata map
 	for _, k := range metaKeys {
 		for i := 0; i < 12; i++ {
